@@ -312,6 +312,9 @@ theorem clustering_coefficient_eq (n : Nat) (val : Nat → Nat → Rat) (s : Opt
 
 example : ∀ sch, (none : Option Schedule) = some sch → sch.Valid 5 := by intro sch h; cases h
 
+example : ∀ sch, some (staticSchedule 5 3) = some sch → sch.Valid 5 := by
+  intro sch h; cases h; exact staticSchedule_valid 5 3
+
 /-! ### the property, assembled -/
 
 /-- the 0/1 adjacency matrix of an adjacency predicate -/
